@@ -352,7 +352,7 @@ fn main() {
                         continue;
                     }
                     // an OPT push may set an extended RCODE
-                    let rc = if it.rtype == 41 && rng.chance(1, 2) {
+                    let rc = if it.rtype == 41 && rng.chance(1, 3) {
                         Some(*rng.pick(&[0u16, 0, 1, 5, 255]) * 16 + rng.below(16) as u16)
                     } else {
                         None
